@@ -144,6 +144,44 @@ impl Cont {
             }
         }
     }
+    /// A `lock_all_entries` stream, polled without waiting (up to `polls` times) and then dropped with whatever is
+    /// still pending; every guard it yields is reported to `f` (key, value) and dropped at once.
+    fn stream_sweep(self, polls: u64, f: &mut dyn FnMut(Key, Option<Val>, &mut dyn FnMut())) {
+        use futures::future::FutureExt;
+        use futures::stream::StreamExt;
+        macro_rules! sweep {
+            ($m:expr) => {{
+                let mut stream = Box::pin($m.lock_all_entries().now_or_never().expect("lock_all_entries waits for nothing"));
+                for _ in 0..polls {
+                    match stream.next().now_or_never() {
+                        Some(Some(g)) => {
+                            let (k, v) = (*g.key(), g.value().copied());
+                            let mut g = Some(g);
+                            f(k, v, &mut || drop(g.take()));
+                        }
+                        Some(None) => break,
+                        None => std::thread::yield_now(),
+                    }
+                }
+            }};
+        }
+        match self {
+            Cont::H(m) => sweep!(m),
+            Cont::L(m) => sweep!(m),
+            Cont::P(_) => {}
+        }
+    }
+    /// `lock_entries_unlocked_for_at_least(0)` on the cache: every guard is reported to `f` and dropped at once.
+    fn idle_sweep(self, f: &mut dyn FnMut(Key, Option<Val>, &mut dyn FnMut())) {
+        if let Cont::L(m) = self {
+            let guards: Vec<_> = m.lock_entries_unlocked_for_at_least(Duration::ZERO).collect();
+            for g in guards {
+                let (k, v) = (*g.key(), g.value().copied());
+                let mut g = Some(g);
+                f(k, v, &mut || drop(g.take()));
+            }
+        }
+    }
     fn keys_at_rest(self) -> (usize, Vec<Key>) {
         let (n, mut ks) = match self {
             Cont::H(m) => (m.num_entries_or_locked(), m.keys_with_entries_or_locked()),
@@ -214,6 +252,37 @@ fn worker(cont: Cont, th: u64, seed: u64, nkeys: u64, len: u64, clk: &AtomicU64,
                     held.push((g, k, guard));
                 }
                 None => rec(&mut out, inv, format!("lock {} {} {} -> none", variant, k, g)),
+            }
+        } else if choice == 9 && !pool && rng.below(2) == 0 {
+            // a sweep: a stream over all entries (or, on the cache, the idle-entry scan); every guard obtained is one
+            // acquisition somewhere between the start of the sweep and the moment it was handed out, then a drop
+            let start = clk.fetch_add(1, Ordering::SeqCst);
+            let stream = rng.below(3) != 0 || !matches!(cont, Cont::L(_));
+            let polls = 1 + rng.below(6);
+            let mut found: Vec<(u64, Key, Option<Val>, u64, u64, u64)> = vec![];
+            {
+                let mut f = |k: Key, v: Option<Val>, dropit: &mut dyn FnMut()| {
+                    let got = clk.fetch_add(1, Ordering::SeqCst);
+                    let g = th * 100 + next_g;
+                    next_g += 1;
+                    let d0 = clk.fetch_add(1, Ordering::SeqCst);
+                    dropit();
+                    let d1 = clk.fetch_add(1, Ordering::SeqCst);
+                    found.push((g, k, v, got, d0, d1));
+                };
+                if stream {
+                    cont.stream_sweep(polls, &mut f);
+                } else {
+                    cont.idle_sweep(&mut f);
+                }
+            }
+            let end = clk.fetch_add(1, Ordering::SeqCst);
+            // while a sweep is in progress its pending per-entry futures (or the scan itself) can own a key's mutex
+            // without anybody seeing a guard: a try of another thread may fail on a key nobody visibly holds
+            out.push(format!("sweep {} {} {}", th, start, end));
+            for (g, k, v, got, d0, d1) in found {
+                out.push(format!("op {} {} {} lock {} {} {} -> guard {}", th, start, got, if stream { "a" } else { "t" }, k, g, opt(v)));
+                out.push(format!("op {} {} {} drop {} -> unit", th, d0, d1, g));
             }
         } else if choice < 7 && !pool {
             let i = rng.below(held.len() as u64) as usize;
